@@ -1,7 +1,7 @@
 ---------------------------- MODULE Trace_Runnable ----------------------------
 (* C18, property monitor on recorded traces of the real Runnable.  Every logged event (taken under one   *)
 (* recorder lock: call / return of a controller call, entry of do / interruptable_sleep / wake / wait /   *)
-(* done, the until() predicate firing, the log line at the head of the finally block, return of run())    *)
+(* done / run, entry of Thread.start() inside start(), the until() predicate firing, the log line at the head of the finally block, return of run())    *)
 (* drives the monitor operators of Runnable.tla; the clauses they find false are recorded in TLC register *)
 (* 1 as <<trace, line, clause>>.  Total: nothing here can block.  The monitor is a function of the        *)
 (* recorded order only; timing never decides.  Whether the trace is a behaviour of the implementation-    *)
@@ -49,7 +49,11 @@ TRet   == /\ Ev.e = "ret" /\ Rec(GRetBad(g, ga, Ev.a, Ev.res))
           /\ g' = GRetG(g, ga, Ev.a, Ev.res) /\ ga' = GRetA(ga, Ev.a) /\ Adv
 TWkE   == Ev.e = "wkE" /\ ga' = GWakeEnterA(ga, Ev.a) /\ UNCHANGED g /\ Adv
 TWkX   == Ev.e = "wkX" /\ ga' = GWakeExitA(ga, Ev.a) /\ UNCHANGED g /\ Adv
-TWtE   == Ev.e = "wtE" /\ ga' = GWaitEnterA(ga, Ev.a) /\ UNCHANGED g /\ Adv
+TWtE   == Ev.e = "wtE" /\ ga' = GWaitEnterA(ga, Ev.a) /\ g' = GWaitEnterG(g, ga, Ev.a) /\ Adv
+\* start-up of the loop thread: Thread.start() entered by the starter / run() entered by the loop thread.  No clause
+\* is evaluated on them; they delimit the window "started, loop thread has not run yet" in the recorded order
+TThS   == Ev.e = "thS" /\ UNCHANGED <<g, ga>> /\ Adv
+TRun   == Ev.e = "run" /\ UNCHANGED <<g, ga>> /\ Adv
 TDo    == Ev.e = "do" /\ Rec(GDoBad(g)) /\ g' = GDoG(g, Ev.out) /\ UNCHANGED ga /\ Adv
 TSleep == Ev.e = "sleep" /\ Rec(GSleepBad(g, Match(g.k, Ev.req))) /\ UNCHANGED <<g, ga>> /\ Adv
 TUntil == Ev.e = "until" /\ g' = GUntilG(g) /\ ga' = GUntilA(ga) /\ Adv
@@ -59,7 +63,7 @@ TExit  == Ev.e = "exit" /\ Rec(GExitBad(Ev.exc = 1)) /\ g' = GExitG(g, ga) /\ UN
 
 TraceNext ==
   /\ l <= Len(Tr)
-  /\ TCall \/ TRet \/ TWkE \/ TWkX \/ TWtE \/ TDo \/ TSleep \/ TUntil \/ TFin \/ TDone \/ TExit
+  /\ TCall \/ TRet \/ TWkE \/ TWkX \/ TWtE \/ TThS \/ TRun \/ TDo \/ TSleep \/ TUntil \/ TFin \/ TDone \/ TExit
 TraceSpec == TraceInit /\ [][TraceNext]_tvars
 
 ASSUME TLCSet(1, {}) /\ TLCSet(2, 0)
